@@ -33,7 +33,9 @@ type Gen struct {
 	specErrors   []string
 	b2sAxiom     bool
 	topTr        *Trans
-	touchedAll   map[string]Sort // every key ever written, across dry runs
+	viewSyms     map[string]string
+	hyps         []func(k Term) Term // quantified assumptions, re-evaluable at a given index
+	touchedAll   map[string]Sort     // every key ever written, across dry runs
 }
 
 type GenOpts struct {
@@ -68,33 +70,34 @@ type deferRec struct {
 
 // Trans translates one activation (top-level or inlined) of an SSA function.
 type Trans struct {
-	g        *Gen
-	e        *Emitter
-	fn       *ssa.Function
-	id       int
-	vals     map[ssa.Value]Val
-	contract *Contract
-	top      bool
-	pre      *State
-	params   []Val
-	reach    map[*ssa.BasicBlock]Term
-	out      map[*ssa.BasicBlock]*State
-	edge     map[[2]*ssa.BasicBlock]Term
-	rets     []retInfo
-	loops    map[*ssa.BasicBlock]*loopInfo
-	defers   []*deferRec
-	callOrd  map[string]int
-	cur      *ssa.BasicBlock
-	st       *State // current state while translating a block
-	rc       Term   // reach of current block
-	label    string // prefix for obligation names
-	pkg      *types.Package
-	freeVars map[*ssa.FreeVar]Val
-	entryRC  Term
-	ordCache map[ssa.Instruction]int
-	frameTs  []target
-	frameAll bool
-	frameDone bool
+	g            *Gen
+	e            *Emitter
+	fn           *ssa.Function
+	id           int
+	vals         map[ssa.Value]Val
+	contract     *Contract
+	top          bool
+	pre          *State
+	params       []Val
+	reach        map[*ssa.BasicBlock]Term
+	out          map[*ssa.BasicBlock]*State
+	edge         map[[2]*ssa.BasicBlock]Term
+	rets         []retInfo
+	loops        map[*ssa.BasicBlock]*loopInfo
+	defers       []*deferRec
+	callOrd      map[string]int
+	cur          *ssa.BasicBlock
+	st           *State // current state while translating a block
+	rc           Term   // reach of current block
+	label        string // prefix for obligation names
+	pkg          *types.Package
+	freeVars     map[*ssa.FreeVar]Val
+	entryRC      Term
+	ordCache     map[ssa.Instruction]int
+	frameTs      []target
+	frameAll     bool
+	frameDone    bool
+	nameOverride []string // parameter names for spec evaluation (refinement checks)
 }
 
 func (g *Gen) newTrans(fn *ssa.Function, top bool) *Trans {
@@ -119,6 +122,9 @@ func shortFn(fn *ssa.Function) string {
 }
 
 func (tr *Trans) posOf(i ssa.Instruction) string {
+	if i == nil {
+		return ""
+	}
 	p := i.Pos()
 	if !p.IsValid() {
 		return ""
@@ -489,9 +495,9 @@ func (tr *Trans) checkInvariant(li *loopInfo, st *State, cond Term, phis map[*ss
 	for _, inv := range li.spec.Invs {
 		env := tr.loopEnv(li, st, phis)
 		env.reach = cond
-		t := env.evalBool(inv.AST)
+		t, extra := tr.goalClause(env, inv.AST)
 		tr.e.oblige(&Obl{Name: fmt.Sprintf("%s#loop%d.%s:%s", tr.label, li.ordinal, what, inv.Label), Kind: "invariant-" + what,
-			Props: inv.Props, Cond: cond, Goal: t, Pos: inv.Where, Fn: tr.label})
+			Props: inv.Props, Cond: cond, Goal: t, Pos: inv.Where, Fn: tr.label, Extra: extra})
 	}
 	if li.spec.Decreases != nil && what == "preserved" && li.decr0.ok() {
 		env := tr.loopEnv(li, st, phis)
@@ -507,10 +513,9 @@ func (tr *Trans) assumeInvariant(li *loopInfo, st *State, rc Term) {
 		return
 	}
 	for _, inv := range li.spec.Invs {
-		env := tr.loopEnv(li, st, li.phiVals)
+		env := tr.loopEnv(li, st.clone(), li.phiVals)
 		env.reach = rc
-		t := env.evalBool(inv.AST)
-		tr.e.assume(rc, t)
+		tr.assumeClause(env, rc, inv.AST)
 	}
 	if li.spec.Decreases != nil {
 		env := tr.loopEnv(li, st, li.phiVals)
@@ -530,7 +535,7 @@ func (tr *Trans) val(v ssa.Value) Val {
 	case *ssa.Const:
 		return tr.constVal(c)
 	case *ssa.Global:
-		key := "G$" + c.Pkg.Pkg.Name() + "." + c.Name()
+		key := tr.g.globalKey(tr.e, c.Pkg.Pkg.Name(), c.Name())
 		pt := c.Type().(*types.Pointer).Elem()
 		if isObjType(pt) {
 			// global object: stable ref
@@ -657,4 +662,21 @@ func (tr *Trans) setVal(v ssa.Value, x Val) {
 		x.C[i] = tr.e.name(fmt.Sprintf("v$%d$%s", tr.id, v.Name()), x.C[i])
 	}
 	tr.vals[v] = x
+}
+
+// globalKey names the cell of a package-level variable. Variables declared `immutable` in the specs (sentinel
+// errors such as io.EOF) are constants: their cell survives havoc and holds a non-nil value.
+func (g *Gen) globalKey(e *Emitter, pkg, name string) string {
+	if g.specs.Immutable[pkg+"."+name] {
+		key := "L$const$" + pkg + "." + name
+		if !g.frSeen[key] {
+			g.frSeen[key] = true
+			c := e.declare(key+"@0", SInt)
+			e.asserts = append(e.asserts, "(assert "+not(eq(c, intT(0))).S+")")
+			// distinct sentinels are distinct values
+			e.asserts = append(e.asserts, "(assert "+eq(c, intT(int64(-3000000-len(g.frSeen)))).S+")")
+		}
+		return key
+	}
+	return "G$" + pkg + "." + name
 }
